@@ -437,6 +437,18 @@ class UnitResult:
         self.gen_time = 0.0
 
 
+def _contract_assumes():
+    """Assumptions executed from contract code during this unit, with the source line that states them."""
+    from .state import CONTRACT_ASSUMES
+    import linecache, os
+    out = []
+    base = os.path.join(os.path.dirname(os.path.dirname(os.path.abspath(__file__))), "contracts")
+    for f, ln, fn in sorted(CONTRACT_ASSUMES):
+        src = linecache.getline(os.path.join(base, f), ln).strip()
+        out.append(f"assumed in contract code {f}:{ln} ({fn}): {src[:160]}")
+    return out
+
+
 def verify_unit(index: RepoIndex, contract: Contract, only=None) -> list[UnitResult]:
     results = []
     variants = list(contract.variants)
@@ -446,6 +458,8 @@ def verify_unit(index: RepoIndex, contract: Contract, only=None) -> list[UnitRes
         t0 = time.time()
         ctx = VerifyCtx(index, contract, variant)
         res = UnitResult(ctx.unit)
+        from .state import CONTRACT_ASSUMES as _CA
+        _CA.clear()
         from . import ops as _ops
         _ops.ABSTRACT_DIV = bool(getattr(contract, "abstract_division", False))
         try:
@@ -476,7 +490,7 @@ def verify_unit(index: RepoIndex, contract: Contract, only=None) -> list[UnitRes
             "function": index.func_info(ctx.modname, ctx.qualname, ctx.fn),
             "inlined": list(ctx.inlined.values()),
             "summaries_used": sorted(ctx.used_summaries),
-            "assumed": list(ctx.assumed),
+            "assumed": list(ctx.assumed) + _contract_assumes(),
             "dropped": dict(ctx._dropped),
             "nodes_interpreted": dict(ctx.node_counts),
             "trivially_true": ctx.trivial,
